@@ -554,9 +554,10 @@ func (f *Formatter) renderOpenTag(n *html.Node) string {
 	for _, attr := range n.Attr {
 		buf.WriteString(" ")
 		buf.WriteString(attr.Key)
-		if attr.Val != "" {
+		// A value that is empty once formatted is written the way an empty value is.
+		if val := helpers.FormatAttr(attr.Val); val != "" {
 			buf.WriteString("=\"")
-			buf.WriteString(escapeAttr(helpers.FormatAttr(attr.Val)))
+			buf.WriteString(escapeAttr(val))
 			buf.WriteString("\"")
 		}
 	}
